@@ -5,7 +5,7 @@ LEVEL = "model_checking"
 UNITS = ["all protocol files of C04-C09", "src/core/msgqueue.c (raw sockets)", "src/core/pollable.c"]
 RULE = "Protocol skeletons containing non-blocking operations; at each such (quiescent) point the poll state read before the call decides the expected result; the pollable/readiness equivalences are asserted after every event."
 BOUNDS = "those of the skeleton families"
-OUTSIDE = "the eventfd/pipe byte (p_raised is the observable); nng.c's ETIMEDOUT->EAGAIN mapping is a one-line conversion not encoded"
+OUTSIDE = "the eventfd/pipe byte (p_raised is the observable)"
 GROUP_WITNESS = False
 ASSUMPTIONS = ["as in C04-C09"]
 
@@ -23,6 +23,13 @@ def queries(tier):
     for q in C18.queries(tier):
         if "msgq-aio" in q.name:
             qs.append(q)
+    # the NNG_FLAG_NONBLOCK front end of src/nng.c
+    NENV = ["env_alloc.c", "env_misc.c", "env_sync.c", "env_aio.c", "env_msg.c", "env_libc.c"]
+    for api, an in enumerate(("sendmsg", "recvmsg", "ctx_sendmsg", "ctx_recvmsg", "send", "recv")):
+        for ready in (1, 0):
+            qs.append(Query("nngapi-%s-%s" % (an, "ready" if ready else "notready"), "c15/nngapi.c", tus=["core/list.c"], env=NENV, defs={"API": api, "READY": ready},
+                            cdefs=["-DENV_MSG_CAP=8"], unwind=30, timeout=300, group="c15/nngapi.c#%d" % ready,
+                            params={"unit": "src/nng.c", "call": "nng_" + an, "flags": "any int", "handle": "any 32-bit id", "socket_ready": bool(ready), "protocol_result": "any code when ready"}))
     return qs
 
 MANIFEST = {
